@@ -8,10 +8,23 @@ import io
 import os
 
 
+class _StateLog(dict):
+    """path -> state; every assignment is remembered, so that the possible contents of a path after a failed write
+    (old, or what a writer since then wrote) can be enumerated"""
+
+    def __init__(self):
+        super().__init__()
+        self.hist = []
+
+    def __setitem__(self, k, v):
+        self.hist.append((k, tuple(v)))
+        super().__setitem__(k, v)
+
+
 class SimDisk:
     def __init__(self, buffer_size=8192, log=None):
         self.files = {}          # path -> bytearray
-        self.state = {}          # path -> ('ack', step_id) | ('bot', why)   ; absent = never written
+        self.state = _StateLog() # path -> ('ack', step_id) | ('bot', why)   ; absent = never written
         self.buffer_size = buffer_size
         self.log = log if log is not None else []
         self.fault_stack = [None]   # current step's armed I/O fault (top of stack)
@@ -225,6 +238,29 @@ class SimDisk:
         if st is None:
             return ["absent"]
         return list(st)
+
+    def candidates(self, path):
+        """the writers whose content the path may hold (the last acknowledged one first, then every writer that
+        opened it since); None when that cannot be said (overlapping writers, removal, a foreign damaged file)"""
+        path = self.key(path)
+        cands, inflight, unknown = [], set(), False
+        for k, v in self.state.hist:
+            if k != path:
+                continue
+            if v[0] == "ack":
+                cands, unknown = [v[1]], False
+                inflight.discard(v[1])
+            elif v[1] == "inflight":
+                if inflight - {v[2]}:
+                    unknown = True
+                inflight.add(v[2])
+                if v[2] not in cands:
+                    cands.append(v[2])
+            elif v[1] in ("overlapped", "removed", "foreign-damaged"):
+                unknown = True
+            else:                      # a writer ended without acknowledgement
+                inflight.discard(v[2])
+        return None if unknown or not cands else list(cands)
 
     def ack(self, path, step_id):
         path = self.key(path)
